@@ -34,13 +34,12 @@ def concatStep (n : Nat) (outer : OuterEnd) (s : ConcatSt) (_i : Nat) : Ev Î± â†
     if s.cur + 1 < n then { st := { cur := s.cur + 1 }, subscribe := [s.cur + 1] }
     else { st := { cur := n }, emits := concatOuterEmits outer, unsubAll := concatOuterUnsub outer }
   | .error e =>
-    -- 903-906: subscriptions.Unsubscribe(); destination.Error. The outer subscription is not yet in
-    -- `subscriptions` (its Subscribe has not returned), so the synchronous outer source goes on:
-    -- every remaining inner source is subscribed (899) and unsubscribed at once (913: the shared
-    -- subscription is done), then the outer terminal arrives at the closed destination.
+    -- 909-912: subscriptions.Unsubscribe(); destination.Error. The outer subscription is not yet in
+    -- `subscriptions` (its Subscribe has not returned), so the synchronous outer source goes on, but
+    -- its Next callback now returns at once (899-903: `subscriptions.IsClosed()`): no further inner
+    -- source is subscribed; then the outer terminal arrives at the closed destination.
     { st := { cur := n }, unsubAll := true,
-      emits := .error e :: concatOuterEmits outer,
-      subscribe := (List.range n).drop (s.cur + 1) }
+      emits := .error e :: concatOuterEmits outer }
 
 def concatM (n : Nat) (outer : OuterEnd) : Machine ConcatSt Î± Î± where
   n := n
